@@ -3,6 +3,7 @@ package bmreqs
 import (
 	"errors"
 	"fmt"
+	"sort"
 	"strings"
 )
 
@@ -143,10 +144,22 @@ func (rg *ReqRoot) run() {
 	}
 }
 
+// sortedNames returns the keys of a requirement map in lexical order (exports and dumps must not
+// depend on the map iteration order)
+func sortedNames(m map[string]bmReqSet) []string {
+	names := make([]string, 0, len(m))
+	for name := range m {
+		names = append(names, name)
+	}
+	sort.Strings(names)
+	return names
+}
+
 func (rg *ReqRoot) recursiveDump(node string) (string, error) {
 	if n, err := rg.decodeNode(node); err == nil {
 		result := ""
-		for name, set := range n.bmReqMap {
+		for _, name := range sortedNames(n.bmReqMap) {
+			set := n.bmReqMap[name]
 			result += node[1:] + "/" + name + "[" + set.getReqs() + "]\n"
 			if set.supportSub() {
 				subs := set.listSub()
@@ -169,7 +182,8 @@ func (rg *ReqRoot) recursiveDump(node string) (string, error) {
 
 func (rg *ReqRoot) Export(r *ExportedReqs, node string) error {
 	if n, err := rg.decodeNode(node); err == nil {
-		for name, set := range n.bmReqMap {
+		for _, name := range sortedNames(n.bmReqMap) {
+			set := n.bmReqMap[name]
 			*r = append(*r, ExportedReq{Node: node, Type: set.getType(), Req: set.getReqs(), Name: name})
 			if set.supportSub() {
 				subs := set.listSub()
